@@ -467,7 +467,12 @@ func (s *Server) setReturnNodes(r *krpc.Return, queryMsg krpc.Msg, querySource A
 	if queryMsg.A == nil {
 		return &krpcErrMissingArguments
 	}
-	target := int160.FromByteArray(queryMsg.A.InfoHash)
+	// get_peers names its target in info_hash, find_node and get in target.
+	targetID := queryMsg.A.Target
+	if queryMsg.Q == "get_peers" {
+		targetID = queryMsg.A.InfoHash
+	}
+	target := int160.FromByteArray(targetID)
 	if shouldReturnNodes(queryMsg.A.Want, querySource.IP()) {
 		r.Nodes = s.makeReturnNodes(target, func(na krpc.NodeAddr) bool { return na.IP.To4() != nil })
 	}
